@@ -1,10 +1,13 @@
 #!/bin/bash
-# usage: seed_matrix.sh [out-file] : runs every seeded change against the check of its own property (scratch worktrees)
+# usage: seed_matrix.sh [out-file] : runs every seeded change against the check of its own property in a scratch
+# worktree of /repo HEAD (+ working-tree contracts); one line per seed with the names of the violated obligations
 out=${1:-/verif/seeded/RESULTS.txt}
 : > $out
 for d in /verif/seeded/C*-*/; do
   s=$(basename $d); p=${s%-*}
-  r=$(/verif/tools/try_patch.sh $d/patch.diff $p 2>&1 | grep -c "^VIOLATION")
-  first=$(/verif/tools/try_patch.sh $d/patch.diff $p 2>&1 | grep "^VIOLATION" | head -1 | sed 's#.*replays/[A-Z0-9]*/##' | cut -c1-150)
-  echo "$s $p violations=$r first=$first" >> $out
+  res=$(/verif/tools/try_patch.sh $d/patch.diff $p 2>&1)
+  if echo "$res" | grep -q "PATCH DOES NOT APPLY"; then echo "$s $p PATCH-DOES-NOT-APPLY" >> $out; continue; fi
+  n=$(echo "$res" | grep -c "^VIOLATION")
+  names=$(echo "$res" | grep "^VIOLATION" | sed 's#.*replays/[A-Z0-9]*/##; s#\.txt.*##; s#_test\.go##' | cut -c1-110 | tr '\n' ' ')
+  echo "$s $p violations=$n $names" >> $out
 done
